@@ -105,8 +105,9 @@ Definition model_reverse (E : env) (t : ty) (ms : list mangler) (filled : list v
 Definition supported (t : ty) : bool :=
   match t with TStruct fs _ => wf_fields fs | _ => false end.
 
-(* known-finding class 1: an alias tag on an embedded (anonymous) struct field
-   in a chain that later flattens: both copies contribute the same names *)
+(* (former known-finding class 1, now an error outcome: an alias tag on an
+   embedded struct field in a chain that later flattens gives both copies the
+   same flattened names) *)
 Definition chain_alias_tags (ms : list mangler) : list str :=
   flat_map (fun m => match m with MAlias tags => tags | _ => [] end) ms.
 Definition has_alias_tag (atags : list str) (tg : list (str * str)) : bool :=
@@ -146,8 +147,14 @@ Definition check (c : c10case) : N :=
       let corr_v := match itt with Ok _ => tval_out_eqb impl model | _ => true end in
       if negb (supported t) then (if corr_t && corr_v then 0 else 1)
       else match itt with
-           | Panic _ => if corr_t && class1 t ms then 11 else 3
-           | Err _ => 3
+           | Panic _ => 3
+           | Err _ =>
+               (* a type whose translated field names collide has no translation
+                  (error naming the field): outside the property's quantifier *)
+               match model_translate t ms with
+               | Err c => if c =? dup_name_err then 0 else 3
+               | _ => 3
+               end
            | Ok _ =>
                match impl with
                | Panic _ => 3
